@@ -1565,3 +1565,125 @@ Proof.
   unfold gas_catalog. destruct segs as [|s segs]; [reflexivity|].
   cbn [ctrls_of map fst snd flat_map]. rewrite !seg_catalog_ctrls. reflexivity.
 Qed.
+
+(* ================================================================== histories *)
+Lemma unique_by_name (U : list controller) a b :
+  NoDup (map fst U) -> In a U -> In b U -> fst a = fst b -> a = b.
+Proof.
+  induction U as [|c U IH]; simpl; [intros _ []|]. intros Hnd Ha Hb E.
+  inversion Hnd as [|? ? Hni Hnd']; subst.
+  destruct Ha as [->|Ha], Hb as [->|Hb]; auto.
+  - exfalso. apply Hni. rewrite E. apply in_map. exact Hb.
+  - exfalso. apply Hni. rewrite <- E. apply in_map. exact Ha.
+Qed.
+
+Lemma set_index_ok U st n i st' :
+  NoDup (map fst U) -> st_ok U st -> set_index U st n i = Some st' -> st_ok U st'.
+Proof.
+  unfold set_index. intros Hnd Hok H.
+  destruct (existsb (fun c => String.eqb (fst c) n && (0 <=? i) && (i <? Z.of_nat (List.length (snd c)))) U) eqn:E;
+    [|discriminate]. injection H as <-.
+  apply existsb_exists in E. destruct E as (c0 & Hc0 & E).
+  apply andb_prop in E. destruct E as [E E3]. apply andb_prop in E. destruct E as [E1 E2].
+  apply String.eqb_eq in E1. apply Z.leb_le in E2. apply Z.ltb_lt in E3.
+  assert (Hall : forall c, In c U -> fst c = n -> c = c0).
+  { intros c Hc Hn. apply (unique_by_name U); auto. congruence. }
+  clear Hnd Hc0. unfold st_ok in *.
+  induction Hok as [|c j cs st Hj _ IH]; [constructor|].
+  simpl. constructor.
+  - destruct (String.eqb_spec (fst c) n) as [Heq|_]; [|exact Hj].
+    rewrite (Hall c (or_introl eq_refl) Heq). lia.
+  - apply IH. intros c' Hc'. apply Hall. right. exact Hc'.
+Qed.
+
+Lemma run_sets_ok U : forall h st st',
+  NoDup (map fst U) -> st_ok U st -> run_sets U st h = Some st' -> st_ok U st'.
+Proof.
+  induction h as [|[n i] h IH]; intros st st' Hnd Hok H; simpl in H.
+  - injection H as <-. exact Hok.
+  - destruct (set_index U st n i) as [st1|] eqn:E; [|discriminate].
+    eapply IH; [exact Hnd| |exact H]. eapply set_index_ok; eauto.
+Qed.
+
+Lemma central_complete_prop e c :
+  (forall a b, In a (ctrls_of e) -> In b (ctrls_of e) -> fst a = fst b -> a = b) ->
+  In c (ctrls_of e) -> In c (central e).
+Proof.
+  intros Hco Hc. pose proof (central_names e c Hc) as Hn. apply in_map_iff in Hn.
+  destruct Hn as (x & E & Hx). replace c with x; [exact Hx|].
+  apply Hco; [apply central_incl; exact Hx|exact Hc|exact E].
+Qed.
+
+(* what holds for one controller of the formula in ANY legal state of the controllers *)
+Lemma state_ctrl_set U st e c :
+  wf_ctrls U = true -> st_ok U st -> incl (ctrls_of e) U -> In c (ctrls_of e) ->
+  ctrl_set (current_configuration U st e) (index_in U st) c.
+Proof.
+  intros Hwf Hok Hincl Hc.
+  destruct (wf_ctrls_props _ Hwf) as [Hnd Hsp].
+  pose proof (Hincl c Hc) as HcU.
+  destruct (In_nth _ _ c HcU) as (k & Hk & Hnth).
+  pose proof (st_ok_length _ _ Hok) as Hlen.
+  assert (Hci : In (c, nth k st 0) (combine U st)).
+  { rewrite <- Hnth at 1. rewrite <- combine_nth by exact Hlen. apply nth_In. rewrite combine_length. lia. }
+  pose proof (index_in_combine _ _ _ _ Hnd Hci) as Hix.
+  pose proof (Forall2_In_combine _ _ _ _ _ Hok Hci) as Hr. simpl in Hr.
+  exists (nth_Z EmptyString (snd c) (nth k st 0)), (nth k st 0).
+  split; [|split; [exact Hix|apply index_of_nth; [apply Hsp; exact HcU|exact Hr]]].
+  apply assoc_In_NoDup.
+  - unfold current_configuration. rewrite map_map. simpl.
+    apply strong_sorted_NoDup. apply central_sorted.
+  - unfold current_configuration. apply in_map_iff. exists c. rewrite Hix. split; [reflexivity|].
+    apply central_complete_prop; [|exact Hc].
+    intros a b Ha Hb. apply (unique_by_name U); auto.
+Qed.
+
+Lemma current_configuration_valid U st e :
+  wf_ctrls U = true -> st_ok U st -> incl (ctrls_of e) U ->
+  valid_config (central e) (current_configuration U st e) = true.
+Proof.
+  intros Hwf Hok Hincl. destruct (wf_ctrls_props _ Hwf) as [Hnd Hsp].
+  apply valid_config_Forall2. unfold current_configuration.
+  assert (H : forall c, In c (central e) -> In c (ctrls_of e)) by (intros; apply central_incl; assumption).
+  induction (central e) as [|c l IH]; [constructor|].
+  simpl. constructor; [|apply IH; intros; apply H; right; assumption].
+  simpl. split; [reflexivity|].
+  destruct (state_ctrl_set U st e c Hwf Hok Hincl (H c (or_introl eq_refl))) as (s & i & _ & Hix & Hi).
+  rewrite Hix. destruct (index_of_spec _ _ _ Hi) as (Hr & _). apply nth_Z_In. exact Hr.
+Qed.
+
+(* T16i: whatever happened to the controllers before or after the catalogs of e were created, e
+   reads as the formula written by hand for the configuration it reports, that configuration is a
+   member of e's product, and every catalog of e selects the member it names *)
+Lemma any_state_reads_handwritten U st e :
+  wf_ctrls U = true -> st_ok U st -> incl (ctrls_of e) U ->
+  read U st e = subst (current_configuration U st e) e /\
+  valid_config (central e) (current_configuration U st e) = true /\
+  Forall (fun p => snd p = assoc (fst p) (current_configuration U st e) /\ snd p <> None)
+         (selected_names (index_in U st) e).
+Proof.
+  intros Hwf Hok Hincl.
+  assert (HF : Forall (ctrl_set (current_configuration U st e) (index_in U st)) (ctrls_of e)).
+  { apply Forall_forall. intros c Hc. apply state_ctrl_set; assumption. }
+  split; [apply erase_subst; exact HF|]. split; [apply current_configuration_valid; assumption|].
+  apply selected_names_sync. exact HF.
+Qed.
+
+Lemma any_history_reads_handwritten U st0 h st e :
+  wf_ctrls U = true -> st_ok U st0 -> run_sets U st0 h = Some st -> incl (ctrls_of e) U ->
+  read U st e = subst (current_configuration U st e) e /\
+  valid_config (central e) (current_configuration U st e) = true /\
+  Forall (fun p => snd p = assoc (fst p) (current_configuration U st e) /\ snd p <> None)
+         (selected_names (index_in U st) e).
+Proof.
+  intros Hwf Hok Hrun Hincl. apply any_state_reads_handwritten; try assumption.
+  destruct (wf_ctrls_props _ Hwf) as [Hnd _]. eapply run_sets_ok; eauto.
+Qed.
+
+(* the initial state (every Controller starts at index 0) is legal *)
+Lemma initial_state_ok U : (forall c, In c U -> snd c <> []) -> st_ok U (map (fun _ => 0) U).
+Proof.
+  intros H. unfold st_ok. induction U as [|c U IH]; simpl; constructor.
+  - specialize (H c (or_introl eq_refl)). destruct (snd c); [congruence|simpl; lia].
+  - apply IH. intros; apply H; right; assumption.
+Qed.
